@@ -265,6 +265,17 @@ C15_Viol(r) ==
          \/ r.o.damaged # <<>>
 
 (***************************************************************************)
+(* C16 (memory level)  split-off parts are independent allocations         *)
+(***************************************************************************)
+\* while split-off parts are live: operating on one part (or on anything else) never changes the contents of
+\* another, parts stay inside the arena and disjoint from every other live block, reallocation of a part keeps its prefix
+C16_Viol(r) ==
+    IsStep(r) /\ r.exp.nparts > 0 /\
+    \/ r.o.damaged # <<>>
+    \/ Has(r.o, "prefix_ok") /\ ~r.o.prefix_ok
+    \/ C01_Viol(r)
+
+(***************************************************************************)
 (* DRIFT: the observation differs from the model's exact prediction        *)
 (***************************************************************************)
 Drift(r) ==
@@ -289,6 +300,8 @@ Init == /\ done = TRUE
         /\ PrintT(<<"BAD_C14", {i \in Idx : C14_Viol(Rec[i])}>>)
         /\ PrintT(<<"BAD_C18", {i \in Idx : C18_Viol(Rec[i])}>>)
         /\ PrintT(<<"BAD_C15", {i \in Idx : C15_Viol(Rec[i])}>>)
+        /\ PrintT(<<"BAD_C16", {i \in Idx : C16_Viol(Rec[i])}>>)
+        /\ PrintT(<<"N_PARTS", Cardinality({i \in Idx : IsStep(Rec[i]) /\ Rec[i].exp.nparts > 0})>>)
         /\ PrintT(<<"N_PREP", Cardinality({i \in Idx : PrepFill(Rec[i]) \/ Rec[i].a = "prep_commit"})>>)
         /\ PrintT(<<"N_COMMIT", Cardinality({i \in Idx : Rec[i].a = "prep_commit" /\ Rec[i].o.len > 0})>>)
         /\ PrintT(<<"N_FAIL", Cardinality({i \in Idx : IsStep(Rec[i]) /\ (ScriptedFail(Rec[i]) \/ Rec[i].a = "alloc_huge")})>>)
